@@ -122,7 +122,12 @@ def bodies(shape):
             body = f"return call_next({', '.join(f'FW{m}_{q}' for q in range(len(names)))})"
         else:
             raise ValueError(k)
-        specs.append(dict(pos=[(nm, ("K", t) if t != shape["n"] else ("obj",), False) for nm, t in zip(names, md["pos"])],
+        def term(t):
+            base = ("K", t) if t != shape["n"] else ("obj",)
+            # class arguments: the methods are declared on type[...] and the calls pass the classes themselves (same rule: type[K] accepts the
+            # class C exactly when C is a subclass of K)
+            return ("type", base) if shape.get("classargs") else base
+        specs.append(dict(pos=[(nm, term(t), False) for nm, t in zip(names, md["pos"])],
                           body=body, selfarg=slf))
     return specs
 
@@ -248,7 +253,7 @@ def make_run(W, shape, known_active=None):
     n = shape["n"]
     methods = shape["methods"]
     M = len(methods)
-    key = repr((methods, shape.get("selfarg"), shape.get("factory")))
+    key = repr((methods, shape.get("selfarg"), shape.get("factory"), shape.get("classargs")))
     ms = _MS.get(key)
     if ms is None:
         ms = _MS[key] = FactorySet(shape) if shape.get("factory") else MethodSet(bodies(shape))
@@ -265,6 +270,8 @@ def make_run(W, shape, known_active=None):
         return r
 
     def inst(c):
+        if shape.get("classargs"):
+            return W.K[c] if c != n else object
         return W.inst[c] if c != n else object()
 
     def run(ctx):
@@ -450,13 +457,17 @@ def gen_shapes(tier, seed):
     for mt in itertools.product(range(n + 1), repeat=3):
         for ks in itertools.product(["ret", "next", "fnext"], repeat=3):
             fam_fact.append(dict(n=n, factory=True, methods=[dict(pos=[t], kind=k) for t, k in zip(mt, ks)], args=[0]))
-    total = len(shapes) + len(fam_fwd) + len(fam2) + len(fam4) + len(fam_self) + len(fam_fact)
-    for f in (shapes, fam_fwd, fam2, fam4, fam_self, fam_fact):
+    fam_cls = []
+    for mt in itertools.product(range(n + 1), repeat=3):
+        for ks in itertools.product(["ret", "next", "fnext"], repeat=3):
+            fam_cls.append(dict(n=n, classargs=True, methods=[dict(pos=[t], kind=k) for t, k in zip(mt, ks)], args=[0]))
+    total = len(shapes) + len(fam_fwd) + len(fam2) + len(fam4) + len(fam_self) + len(fam_fact) + len(fam_cls)
+    for f in (shapes, fam_fwd, fam2, fam4, fam_self, fam_fact, fam_cls):
         rng.shuffle(f)
     if tier == "quick":
-        out = shapes[:230] + fam_fwd[:110] + fam2[:90] + fam4[:40] + fam_self[:70] + fam_fact[:70] + fam_dep
+        out = shapes[:230] + fam_fwd[:110] + fam2[:90] + fam4[:40] + fam_self[:70] + fam_fact[:70] + fam_dep + fam_cls[:70]
     else:
-        out = shapes + fam_fwd + fam2 + fam4 + fam_self + fam_fact + fam_dep
+        out = shapes + fam_fwd + fam2 + fam4 + fam_self + fam_fact + fam_dep + fam_cls
     return out, total, True
 
 
